@@ -999,6 +999,35 @@ impl<'g, 's> LRTable<'g, 's> {
                 &self.grammar.symbol_name(SymbolIndex(idx))
             )));
         }
+
+        // A non-empty first set is not enough: a non-terminal whose every
+        // production refers back to a non-terminal of the same kind (e.g.
+        // `A: 'a' A;`) derives no string of terminals at all.
+        let mut productive = self.grammar.new_nontermvec(false);
+        let mut changed = true;
+        while changed {
+            changed = false;
+            for production in &self.grammar.productions {
+                if !productive[production.nonterminal]
+                    && production.rhs_symbols().iter().all(|s| {
+                        self.grammar.is_term(*s)
+                            || productive[self.grammar.symbol_to_nonterm_index(*s)]
+                    })
+                {
+                    productive[production.nonterminal] = true;
+                    changed = true;
+                }
+            }
+        }
+        if let Some(nonterminal) = self.grammar.nonterminals.iter().find(|nt| {
+            !productive[nt.idx] && !nt.productions.is_empty()
+        }) {
+            return Err(Error::Error(format!(
+                "Non-terminal {:?} can't derive a string of terminals.\n\
+                 An infinite recursion on the grammar symbol.",
+                nonterminal.name
+            )));
+        }
         Ok(())
     }
 
